@@ -199,3 +199,125 @@ func ruleVecSafe(p *Prog, r *Report) {
 	}
 	r.Extra("vecsafe_loops", nLoops)
 }
+
+// ---- KBND / REENT: the portable kernels stay inside their own buffers and keep no state ------------------------
+
+// kernelPkgFns: every function of the two transform packages reachable from their exported DCT entry points.
+func kernelPkgFns(p *Prog) []*ssa.Function {
+	var roots []*ssa.Function
+	for _, rel := range []string{"imagehash/transforms32", "imagehash/transforms"} {
+		sp := p.SSAPkg(rel)
+		if sp == nil {
+			continue
+		}
+		for name, m := range sp.Members {
+			f, ok := m.(*ssa.Function)
+			if !ok || f.Blocks == nil {
+				continue
+			}
+			if strings.HasPrefix(name, "DCT") || strings.HasPrefix(name, "forwardDCT") || strings.HasPrefix(name, "ForwardDCT") || name == "forwardTransform" {
+				roots = append(roots, f)
+			}
+		}
+	}
+	seen := map[*ssa.Function]bool{}
+	var out []*ssa.Function
+	for len(roots) > 0 {
+		f := roots[len(roots)-1]
+		roots = roots[:len(roots)-1]
+		if seen[f] || !isLibFn(f) || f.Blocks == nil {
+			continue
+		}
+		seen[f] = true
+		out = append(out, f)
+		for _, an := range f.AnonFuncs {
+			roots = append(roots, an)
+		}
+		eachCall(f, func(site ssa.CallInstruction) {
+			for _, g := range p.Callees(site) {
+				if !seen[g] {
+					roots = append(roots, g)
+				}
+			}
+		})
+	}
+	sortFns(out)
+	return out
+}
+
+// localBuffer: the indexed base is a buffer this function allocated itself (make or a local array), possibly re-sliced.
+func localBuffer(v ssa.Value, depth int) bool {
+	if depth > 8 {
+		return false
+	}
+	switch x := v.(type) {
+	case *ssa.MakeSlice:
+		return true
+	case *ssa.Alloc:
+		_, isArr := derefType(x.Type()).Underlying().(*types.Array)
+		return isArr
+	case *ssa.Slice:
+		return localBuffer(x.X, depth+1)
+	case *ssa.Phi:
+		for _, e := range x.Edges {
+			if !localBuffer(e, depth+1) {
+				return false
+			}
+		}
+		return len(x.Edges) > 0
+	case *ssa.FreeVar:
+		return false
+	}
+	return false
+}
+
+func ruleKernelLocal(p *Prog, r *Report) {
+	e := p.E3()
+	eff := p.Effects()
+	n := 0
+	for _, f := range kernelPkgFns(p) {
+		// REENT: no package-level state written
+		if ef := eff.Of(f); ef != nil {
+			key := fnName(f) + " | keeps no package-level state"
+			var ws []string
+			for g := range ef.WGlobals {
+				// state of the library itself; what the runtime and sync keep internally is not the kernel's state
+				if g.G.Pkg != nil && strings.HasPrefix(g.G.Pkg.Pkg.Path(), modPath) {
+					ws = append(ws, globalName(g.G))
+				}
+			}
+			sort.Strings(ws)
+			if len(ws) > 0 {
+				r.Bad("REENT", key, p.posStr(f.Pos()), "the kernel writes package-level state ("+strings.Join(ws, ", ")+"): two calls at the same time use each other's intermediates, which the stateless vector kernel never does")
+			} else {
+				r.OK("REENT", key, p.posStr(f.Pos()), "writes only its arguments and locals")
+			}
+		}
+		// KBND: accesses to buffers the function allocated itself are in range
+		for _, ob := range e.fnB(f).obs {
+			var base ssa.Value
+			switch x := ob.In.(type) {
+			case *ssa.IndexAddr:
+				base = x.X
+			case *ssa.Index:
+				base = x.X
+			case *ssa.Slice:
+				base = x.X
+			default:
+				continue
+			}
+			if !localBuffer(base, 0) {
+				continue
+			}
+			n++
+			key := fnName(f) + " | " + ob.Key
+			at := p.posStr(instrPos(ob.In))
+			if ob.OK {
+				r.OK("KBND", key, at, ob.By)
+			} else {
+				r.Bad("KBND", key, at, "access to a buffer this kernel allocated itself is not proved in range: "+ob.Detail)
+			}
+		}
+	}
+	r.Extra("kbnd_sites", n)
+}
